@@ -403,4 +403,92 @@ example : EntriesWF exCfgEh exBases 0 [.cie exCie, .fde (exCie.expect exCfgEh ex
     unfold PtrOk
     decide +kernel
 
+/-! ### a table indexing a section (non-vacuity of `Indexes`) -/
+
+def ixCie : ACie :=
+  { format := .dwarf32, version := 1, args := [], augPad := [], asz := 8, caf := 1, daf := -8, rar := 16,
+    instr := [0, 0, 0] }
+def ixCfg : Cfg := { eh := true, e := .little, asz := 8, m := .debug }
+def ixF0 : AFde := { format := .dwarf32, initOp := 0x1000, range := 0x20, lsdaOp := 0, augPad := [], instr := [0] }
+def ixF1 : AFde := { format := .dwarf32, initOp := 0x1040, range := 0x10, lsdaOp := 0, augPad := [], instr := [] }
+def ixC : Cie := ixCie.expect ixCfg {} 0
+def ixSec : Bytes := encodeFrameSection true .little [.cie ixCie, .fde ixC ixF1, .fde ixC ixF0] true
+
+/-- eh_frame at 0x2000; table rows sorted by initial location: (0x1000 -> FDE at 40), (0x1040 -> FDE at 16) -/
+def ixHdrBytes : Bytes := [1, 0x03, 0x03, 0x03, 0x00, 0x20, 0, 0, 2, 0, 0, 0,
+  0x00, 0x10, 0, 0, 0x28, 0x20, 0, 0,
+  0x40, 0x10, 0, 0, 0x10, 0x20, 0, 0]
+def ixHdr : Hdr := match parseHdr .debug .little {} 8 ixHdrBytes with
+  | .ok h => h
+  | _ => ⟨0, .direct 0, 0, 0, ⟨0, []⟩⟩
+def ixKey (i : Nat) : Nat := if i = 0 then 0x1000 else 0x1040
+def ixG (i : Nat) : Fde := match fdeFromOffset ixCfg {} ixSec (if i = 0 then 40 else 16) with
+  | .ok f => f
+  | _ => default
+def ixFs : List Fde := match parseAll ixCfg {} ixSec (entriesOf ixCfg {} ixSec).1 with
+  | .ok fs => fs
+  | _ => []
+
+theorem ixFacts : (ixG 0).initial = 0x1000 ∧ (ixG 0).range = 0x20 ∧ (ixG 1).initial = 0x1040 ∧ (ixG 1).range = 0x10 ∧
+    ixHdr.fdeCount = 2 := by decide +kernel
+
+/-- the hypotheses of `hdr_lookup_iff_scan` / `three_paths_agree` are satisfiable: a CIE, two FDEs (out of
+address order in the section) and a sorted two-row table pointing at them -/
+theorem ixIndexes : Indexes ixCfg {} ixHdr ixSec ixFs 4 ixKey ixG where
+  henc := by decide +kernel
+  hn := by decide +kernel
+  htbl := by decide +kernel
+  hbig := by decide +kernel
+  hkey := by
+    intro i hi
+    have h2 : ixHdr.fdeCount = 2 := ixFacts.2.2.2.2
+    rw [h2] at hi
+    have : i = 0 ∨ i = 1 := by omega
+    rcases this with h | h <;> subst h <;> decide +kernel
+  hsorted := by
+    intro i j hij hj
+    have h2 : ixHdr.fdeCount = 2 := ixFacts.2.2.2.2
+    rw [h2] at hj
+    unfold ixKey
+    split <;> split <;> omega
+  hrow := by
+    intro i hi
+    have h2 : ixHdr.fdeCount = 2 := ixFacts.2.2.2.2
+    rw [h2] at hi
+    have : i = 0 ∨ i = 1 := by omega
+    rcases this with h | h <;> subst h
+    · exact ⟨0x2028, 0x2000, by decide +kernel, by decide +kernel, by decide, by decide +kernel, by decide +kernel,
+        by unfold NoWrap; decide +kernel, by decide +kernel⟩
+    · exact ⟨0x2010, 0x2000, by decide +kernel, by decide +kernel, by decide, by decide +kernel, by decide +kernel,
+        by unfold NoWrap; decide +kernel, by decide +kernel⟩
+  hall := by decide +kernel
+  hmem := by
+    intro i hi
+    have h2 : ixHdr.fdeCount = 2 := ixFacts.2.2.2.2
+    rw [h2] at hi
+    have : i = 0 ∨ i = 1 := by omega
+    rcases this with h | h <;> subst h <;> decide +kernel
+  hdisj := by
+    intro i j x hi hj hci hcj
+    have h2 : ixHdr.fdeCount = 2 := ixFacts.2.2.2.2
+    rw [h2] at hi hj
+    obtain ⟨a0, a1, b0, b1, _⟩ := ixFacts
+    have hi' : i = 0 ∨ i = 1 := by omega
+    have hj' : j = 0 ∨ j = 1 := by omega
+    unfold covers at hci hcj
+    rcases hi' with h | h <;> rcases hj' with h' | h' <;> subst h <;> subst h'
+    · rfl
+    · rw [a0, a1] at hci; rw [b0, b1] at hcj; omega
+    · rw [b0, b1] at hci; rw [a0, a1] at hcj; omega
+    · rfl
+
+example : (entriesOf ixCfg {} ixSec).2 = .ok () ∧
+    parseAll ixCfg {} ixSec (entriesOf ixCfg {} ixSec).1 = .ok ixFs ∧ ∀ f, f ∈ ixFs → NoWrap f := by
+  refine ⟨by decide +kernel, by decide +kernel, ?_⟩
+  have h : ixFs = [ixG 1, ixG 0] := by decide +kernel
+  intro f hf
+  rw [h] at hf
+  simp only [List.mem_cons, List.not_mem_nil, or_false] at hf
+  rcases hf with h | h <;> subst h <;> (unfold NoWrap; decide +kernel)
+
 end Gimli.Props.C05
